@@ -82,12 +82,15 @@ struct Case {
 
 async fn build_case(args: &Args, rep: &mut Report, seed: u64, big_tail: bool) -> Option<Case> {
     let mut rng = Rng::new(seed);
+    // 1 case in 4 has a long base history: several sealed segments, partitions and streams that went dormant
+    // before the live segment began (recovery then has to find their positions in the sealed segments)
+    let long = rng.chance(1, 4);
     let cfg = StoreCfg {
         segment_size: 128 * 1024,
         buckets: 1,
         writer_threads: 1,
         reader_threads: 2,
-        partitions: 1 + rng.below(2) as u16,
+        partitions: if long { 2 + rng.below(2) as u16 } else { 1 + rng.below(2) as u16 },
         compression: rng.chance(1, 2),
         sync_interval_ms: 1,
         sync_idle_ms: 5,
@@ -97,9 +100,15 @@ async fn build_case(args: &Args, rep: &mut Report, seed: u64, big_tail: bool) ->
     let base_dir = fresh_dir(&args.work, &format!("c05-base-{}-{seed}", args.shard));
     let db = cfg.open(&base_dir).ok()?;
     let mut model = Model::new(cfg.buckets);
-    let mut g = Gen::new(&mut rng, &cfg, 2, 2);
-    let opts = GenOpts { wrong_pct: 0, max_events: 4, big_payload_pct: 10, max_payload: 6000, key_conflict_pct: 0 };
-    let n = 3 + rng.usize_below(14);
+    let mut g = Gen::new(&mut rng, &cfg, if long { 1 } else { 2 }, 2);
+    if long {
+        g.phase_len = 30 + rng.below(40);
+    }
+    let opts = GenOpts { wrong_pct: 0, max_events: 4, big_payload_pct: if long { 40 } else { 10 }, max_payload: 6000, key_conflict_pct: 0 };
+    let n = if long { 120 + rng.usize_below(150) } else { 3 + rng.usize_below(14) };
+    if long {
+        rep.count("cases_with_sealed_segments", 1);
+    }
     for _ in 0..n {
         let t = g.txn(&mut rng, &model, &opts);
         if model.check(&t).is_ok() && db.append_events(to_store_txn(&t).unwrap()).await.is_ok() {
@@ -255,7 +264,7 @@ async fn check_cut(rep: &mut Report, args: &Args, c: &mut Case, cut: u64, prop: 
     let mut model = c.models[j].clone();
     let mut rng = Rng::new(c.seed ^ cut);
     let opts = GenOpts { wrong_pct: 0, max_events: 3, big_payload_pct: 0, max_payload: 0, key_conflict_pct: 0 };
-    let mut g = Gen { ids: Ids { counter: c.tgen.ids.counter + 1_000_000 + cut * 16 }, keys: c.tgen.keys.clone(), streams_per_key: c.tgen.streams_per_key, op_counter: c.tgen.op_counter + 1_000_000, only_key: None };
+    let mut g = Gen { ids: Ids { counter: c.tgen.ids.counter + 1_000_000 + cut * 16 }, keys: c.tgen.keys.clone(), streams_per_key: c.tgen.streams_per_key, op_counter: c.tgen.op_counter + 1_000_000, only_key: None, phase_len: 0 };
     let mut bad = false;
     for _ in 0..(3 * c.cfg.partitions as usize + 2) {
         let t = g.txn(&mut rng, &model, &opts);
